@@ -251,7 +251,18 @@ pub fn run(rng: &mut Rng, n: usize, rep: &mut Report) {
                 rep.bump("daily_limit_world");
             }
         }
+        // worlds that start WITHOUT a limit may get one later in the day: what was withdrawn before still counts
+        let late_limit_at: Option<usize> = if daily_limit.is_none() && dollars_total >= 4.0 && rng.chance(1, 2) { Some(2 + rng.below(8) as usize) } else { None };
         for it in 0..14 {
+            if Some(it) == late_limit_at {
+                // a limit at or below what may already have left, or a fraction of the collateral's value
+                let lim = if delev_sum_lower > 1 && rng.chance(1, 2) { (delev_sum_lower as u64).clamp(1, u32::MAX as u64 / 2) as u32 }
+                          else { ((dollars_total / (2.0 + rng.below(5) as f64)) as u64).clamp(1, u32::MAX as u64 / 2) as u32 };
+                if s.w.exec(&ix::configure_deleverage_withdrawal_limit(s.group, s.admin, lim)).is_ok() {
+                    daily_limit = Some(lim);
+                    rep.bump("daily_limit_configured_late");
+                }
+            }
             if it >= 12 && (daily_limit.is_none() || f < 0.05) { break; }
             // the admin may re-issue the daily-limit configuration at any time (same value, or another non-zero one): what
             // was already withdrawn today still counts against whatever limit is in force
@@ -368,7 +379,7 @@ pub fn run(rng: &mut Rng, n: usize, rep: &mut Report) {
             let pre_eq: Vec<(num_bigint::BigInt, num_bigint::BigInt)> = (0..3).map(|i| indep_equity(&s.w, &s.users[i].acct)).collect();
             let vault_cb0 = s.w.token_amount(&s.banks[0].liquidity_vault);
             let r = s.w.exec_tx(&ixs);
-            if let (Ok(()), Some(lim)) = (&r, daily_limit) {
+            if r.is_ok() {
                 if tx.iter().any(|k| matches!(k, K::StartDelev(_))) {
                     let out = vault_cb0.saturating_sub(s.w.token_amount(&s.banks[0].liquidity_vault));
                     let price_bits = bits(s.w.bank(&s.banks[0].bank).config.fixed_price);
@@ -378,11 +389,13 @@ pub fn run(rng: &mut Rng, n: usize, rep: &mut Report) {
                     // every withdrawal is metered in whole dollars rounded DOWN: allow one dollar per withdrawal
                     delev_sum_lower += (d - cnt).max(0);
                     rep.bump("delev_metered_tx");
-                    if delev_sum_lower > lim as i128 {
+                    if let Some(lim) = daily_limit {
+                      if delev_sum_lower > lim as i128 {
                         rep.fail(format!(
                             "C12 forced deleverages withdrew at least {} whole dollars within one day under a daily limit of {} (this transaction alone moved {} tokens worth {} dollars out of the collateral vault): {:?}",
                             delev_sum_lower, lim, out, d, tx
                         ));
+                      }
                     }
                 }
             }
